@@ -40,6 +40,10 @@ def run(tier, seed, which="C08"):
                     tys = [5]
                 add("%s_L%d_k%d" % (cname, L, k), s, k, rng.choice(tys), rng.choice([1, 2, 4, 16]))
                 i += 1
+    # many copies of a single-letter string: the regime in which gap costs and substitution scores scale with the group sizes
+    for cname, ch, tys in (("allX", "X", [3, 5]), ("allN", "N", [0, 2, 5]), ("allB", "B", [5]), ("allA", "A", [0, 1, 2, 5]), ("allW", "W", [3, 4, 5])):
+        for k, L in ([(300, 40), (500, 12)] if tier == "quick" else [(258, 700), (300, 40), (400, 10), (500, 5), (500, 60), (1000, 20)]):
+            add("%s_many_L%d_k%d" % (cname, L, k), ch * L, k, rng.choice(tys), rng.choice([1, 4, 16]))
     V.sample(dict(group=groups[0]["gid"], seq=groups[0]["members"][0]["seqs"][0][:80], copies=len(groups[0]["members"][0]["seqs"])))
     rel.run_groups(V, groups, wd, per_batch=6, timeout=900)
     return V.finish(rule="k copies of one string: k in %s, length in %s, compositions uniform / single letter (all-N, all-X, all-B, all-Z, all-U, all-W) / IUPAC mixtures / mixed case, "
